@@ -2,7 +2,7 @@
    The value converters of HttpMap.v are instantiated here with definitions for the generated subset (scalars, lists,
    sets, maps with string / integer keys, structs): text per thrift.DecodeText, JSON per Json.v / Num.v / Base64.v. *)
 From Coq Require Import ZArith List Bool.
-From DG Require Import CaseFormat ProtoWireRef ThriftWire ThriftEdit ThriftEnvelope Json Num Base64 HttpMap.
+From DG Require Import CaseFormat ProtoWireRef ThriftWire ThriftEdit ThriftEnvelope Json Num Base64 HttpMap HttpMapCoded.
 From DG Require J2T.
 Import ListNotations.
 Local Open Scope Z_scope.
@@ -344,7 +344,9 @@ Definition getter_mismatch (readback intended : request) (bodykind : Z) (keys : 
     else None
   end.
 
-Definition check_1701 (fs : list field) : verdict :=
+(* the case format of 1701 / 1704: parsing, the getter checks (codes 8, 7), decoding of the output; then the judgement K *)
+Definition with_case_1701
+    (K : hopts -> Z -> list fdesc -> request -> option json -> Z -> list Z -> option tval -> verdict) (fs : list field) : verdict :=
   match fs with
   | FZ bits :: FZ impl :: r =>
     match parse_tdesc (S (length r)) r with
@@ -376,21 +378,7 @@ Definition check_1701 (fs : list field) : verdict :=
           (* SkipGo's model first: it bounds every declared length by the remaining input before converting it to a nat
              (the decoder on malformed output with a huge string length would build that nat) *)
           let out := if ec =? 0 then match skip_go T_STRUCT outb with Some [] => decode_all T_STRUCT outb | _ => None end else None in
-          let spec := model_j2t o Spec rq flds jbody in
-          match agree spec ec out with
-          | 0 => VOk
-          | a =>
-            let qfl := if impl =? 0 then NativeQuirk else PortableQuirk in
-            let flds' := reorder_fields 8 flds in
-            if agree (model_j2t o qfl rq flds jbody) ec out =? 0 then VKnown (if impl =? 0 then FINDING_TRACEBACK_NATIVE else FINDING_TRACEBACK_PORTABLE)
-            else if (agree (model_j2t o Spec rq flds' jbody) ec out =? 0) || (agree (model_j2t o qfl rq flds' jbody) ec out =? 0) then VKnown FINDING_BODY_LAST
-            else if (ec =? 0) && (match spec with HErr _ => true | _ => false end) && existsb (fun q => is_infix q outb) (nbs_candidates 8 o rq flds)
-            then VKnown FINDING_NBS_IGNORED_ERROR
-            else if (ec =? 0) && (match model_j2t o Spec rq flds' jbody with HErr _ => true | _ => false end) && existsb (fun q => is_infix q outb) (nbs_candidates 8 o rq flds')
-            then VKnown FINDING_NBS_IGNORED_ERROR     (* together with 1714: api.body consulted last lets the no_body_struct source win *)
-            else if a =? 1 then VDrift 1
-            else VBad 1 (hres_detail spec)
-          end
+          K o impl flds rq jbody ec outb out
           end
         end
         end
@@ -402,6 +390,39 @@ Definition check_1701 (fs : list field) : verdict :=
     end
   | _ => VBad 99 []
   end.
+
+Definition judge_1701 (o : hopts) (impl : Z) (flds : list fdesc) (rq : request) (jbody : option json) (ec : Z) (outb : list Z) (out : option tval) : verdict :=
+  let spec := model_j2t o Spec rq flds jbody in
+  match agree spec ec out with
+  | 0 => VOk
+  | a =>
+    let qfl := if impl =? 0 then NativeQuirk else PortableQuirk in
+    let flds' := reorder_fields 8 flds in
+    if agree (model_j2t o qfl rq flds jbody) ec out =? 0 then VKnown (if impl =? 0 then FINDING_TRACEBACK_NATIVE else FINDING_TRACEBACK_PORTABLE)
+    else if (agree (model_j2t o Spec rq flds' jbody) ec out =? 0) || (agree (model_j2t o qfl rq flds' jbody) ec out =? 0) then VKnown FINDING_BODY_LAST
+    else if (ec =? 0) && (match spec with HErr _ => true | _ => false end) && existsb (fun q => is_infix q outb) (nbs_candidates 8 o rq flds)
+    then VKnown FINDING_NBS_IGNORED_ERROR
+    else if (ec =? 0) && (match model_j2t o Spec rq flds' jbody with HErr _ => true | _ => false end) && existsb (fun q => is_infix q outb) (nbs_candidates 8 o rq flds')
+    then VKnown FINDING_NBS_IGNORED_ERROR     (* together with 1714: api.body consulted last lets the no_body_struct source win *)
+    else if a =? 1 then VDrift 1
+    else VBad 1 (hres_detail spec)
+  end.
+
+Definition check_1701 (fs : list field) : verdict := with_case_1701 judge_1701 fs.
+
+(* 1704: the same case judged by the TRANSCRIPTION of the code (HttpMapCoded.v), run as the code runs today: HTTPMappings() in the order
+   mapAnnotations produces (api.body last, finding 1714), native = state machine + Go handlers, portable = doRecurse.  No quirk
+   classification here: the transcription must agree with the implementation on every case. *)
+Definition coded_model (o : hopts) (impl : Z) (rq : request) (flds : list fdesc) (jbody : option json) : hres :=
+  coded_j2t o rq (text_conv o) (json_conv_c02 o) (impl =? 0) 8%nat (reorder_fields 8 flds) jbody.
+Definition judge_1704 (o : hopts) (impl : Z) (flds : list fdesc) (rq : request) (jbody : option json) (ec : Z) (outb : list Z) (out : option tval) : verdict :=
+  let c := coded_model o impl rq flds jbody in
+  match agree c ec out with
+  | 0 => VOk
+  | 1 => VDrift 1
+  | _ => VBad 1 (hres_detail c)
+  end.
+Definition check_1704 (fs : list field) : verdict := with_case_1701 judge_1704 fs.
 
 (* ---- response side ---- *)
 Definition s_of_string (l : list Z) := l.
@@ -676,5 +697,96 @@ Definition check_1703 (fs : list field) : verdict :=
        converter with the stale flag word *)
     else if enable =? 0 then VKnown FINDING_HTTPCONV_FLAGS
     else VBad 1 []
+  | _ => VBad 99 []
+  end.
+
+(* ---- 1705: what the setters left in the http.Response.  The transcription of conv/t2j (HttpMapCoded.t2j_field / handleUnsets_field)
+   is folded over the fields exactly as do / doRecurse / handleUnsets visit them, threading the response state of the transcribed
+   HTTPResponse setters; the final state must be the one observed: every delivered cookie is its own Set-Cookie line (none replaced),
+   a header holds the last value set, the status code and the raw body are the delivered ones. *)
+Fixpoint coded_resp (lvl : nat) (o : hopts) (fs : list fdesc) (vals : list (Z * tval)) (r : response) : option response :=
+  let text (f : fdesc) (v : tval) := match http_text o (f_ty f) v with Some x => x | None => opaque_text end in
+  let present :=
+    fold_left (fun acc p =>
+      match acc with
+      | None => None
+      | Some r =>
+        match find (fun f => f_id f =? fst p) fs with
+        | None => Some r
+        | Some f =>
+          match f_ty f, snd p, f_anns f with
+          | TStruct gs, VStruct sub, [] => match lvl with S l' => coded_resp l' o gs sub r | O => Some r end
+          | _, _, _ => match t2j_field o f r (text f (snd p)) with TJ _ r' => Some r' | TJErr => None end
+          end
+        end
+      end) vals (Some r) in
+  fold_left (fun acc f =>
+    match acc with
+    | None => None
+    | Some r =>
+      if existsb (fun p => fst p =? f_id f) vals then Some r else
+      if f_req f =? R_OPTIONAL then Some r else
+      if (f_req f =? R_REQUIRED) && negb (o_wr o) then None
+      else if (f_req f =? R_DEFAULT) && negb (o_wd o) then Some r
+      else match handleUnsets_field o true f r (text f (zero_of (f_ty f))) with TJ _ r' => Some r' | TJErr => None end
+    end) (sort_by_id fs) present.
+
+Fixpoint parse_pairs (n : nat) (fs : list field) : option (kv * list field) :=
+  match n with
+  | O => Some ([], fs)
+  | S n' => match fs with
+            | FB k :: FB v :: r => match parse_pairs n' r with Some (l, r') => Some ((k, v) :: l, r') | None => None end
+            | _ => None
+            end
+  end.
+
+(* bytes http.Cookie.String() writes unchanged and unquoted *)
+Definition cookie_safe (v : list Z) : bool :=
+  forallb (fun c => (33 <=? c) && (c <=? 126) && negb ((c =? 34) || (c =? 59) || (c =? 92) || (c =? 44))) v.
+Definition text_known (v : list Z) : bool := negb (zlist_eqb v opaque_text).
+
+Definition cookie_matches (e c : list Z * list Z) : bool :=
+  zlist_eqb (fst e) (fst c) && (negb (text_known (snd e) && cookie_safe (snd e)) || zlist_eqb (snd e) (snd c)).
+Fixpoint cookies_same (es cs : kv) : bool :=
+  match es with
+  | [] => match cs with [] => true | _ => false end
+  | e :: es' => match remove_first (cookie_matches e) cs with Some cs' => cookies_same es' cs' | None => false end
+  end.
+
+(* fields: opts, descriptor, input, err class, status (0 = never set), cookies (name, value), headers (key, value), raw body set *)
+Definition check_1705 (fs : list field) : verdict :=
+  match fs with
+  | FZ bits :: r =>
+    match parse_tdesc (S (length r)) r with
+    | Some (TStruct flds, FB inb :: FZ ec :: FZ status :: FZ nc :: r1) =>
+      if (nc <? 0) || (nc >? 100000) then VBad 99 [] else
+      match parse_pairs (Z.to_nat nc) r1 with
+      | Some (cookies, FZ nh :: r2) =>
+        if (nh <? 0) || (nh >? 100000) then VBad 99 [] else
+        match parse_pairs (Z.to_nat nh) r2 with
+        | Some (headers, [FZ hasraw]) =>
+          if negb (ec =? 0) then VSkip else           (* errors are judged by 1702 *)
+          match (match skip_go T_STRUCT inb with Some [] => decode_all T_STRUCT inb | _ => None end) with
+          | Some (VStruct vals) =>
+            if negb (wf (VStruct vals)) then VSkip else
+            let o := opts_of bits in
+            (* HTTPMappings() in the order the code has today (finding 1714) *)
+            match coded_resp 1 o (reorder_fields 8 flds) vals resp0 with
+            | None => VSkip
+            | Some rs =>
+              vand (expect 1 (cookies_same (rs_cookies rs) cookies) (flat_map (fun c => [FB (fst c); FB (snd c)]) (rs_cookies rs)))
+             (vand (expect 2 (forallb (fun h => negb (text_known (snd h)) || zlist_eqb (snd h) (assoc (fst h) headers)) (rs_header rs))
+                             (flat_map (fun c => [FB (fst c); FB (snd c)]) (rs_header rs)))
+             (vand (expect 3 (match rs_status rs with Some c => status =? c | None => status =? 0 end) [FZ (match rs_status rs with Some c => c | None => 0 end)])
+                   (expect 4 (Bool.eqb (match rs_body rs with Some _ => true | None => false end) (negb (hasraw =? 0))) [])))
+            end
+          | _ => VSkip
+          end
+        | _ => VBad 98 []
+        end
+      | _ => VBad 97 []
+      end
+    | _ => VBad 96 []
+    end
   | _ => VBad 99 []
   end.
